@@ -1,6 +1,6 @@
 (* Props/C06.v -- property theorems only *)
 From Coq Require Import ZArith List.
-From Falcon Require Import Base.Res IL.Const IL.Expr IL.Func Exec.Sem Lift.Lang Lift.LangSem Lift.Recover Lift.C06Check Lift.RecoverProofs.
+From Falcon Require Import Base.Res IL.Const IL.Expr IL.Func Exec.Sem Lift.Lang Lift.LangSem Lift.Recover Lift.C06Check Lift.RecoverProofs Cfg.SOps Cfg.SProofs Cfg.MergeLift.
 Import ListNotations.
 
 (* 1. the validator run on every recovered function is sound: acceptance means the two graphs read exactly
@@ -122,3 +122,19 @@ Proof.
     { apply (rs_ctl _ 4%Z (mkmi empty_block_cfg 4%Z (Some [])) [] eq_refl eq_refl). }
     destruct (Z.eqb_spec a 0%Z); [congruence|]. destruct (Z.eqb_spec a 4%Z); [congruence | reflexivity].
 Qed.
+
+(* 8. the model INCLUDING the final merge (C15: Cfg/MergeLift.v, re-verified here): merge never fails on a graph
+      assembled by the model that passes the executable test merge_ready (cfg_inv + non-negative counters, evaluated
+      per case in the tie), and the complete model has exactly the language of the merge-free one *)
+Theorem merge_flang : forall g, SProofs.sinv g ->
+  snd (SOps.s_merge g) = Ok tt /\ SProofs.sinv (fst (SOps.s_merge g)) /\
+  forall w, lang (fst (SOps.s_merge g)) w <-> lang g w.
+Proof. exact MergeLift.merge_flang. Qed.
+Print Assumptions merge_flang.
+
+Theorem recover_full_lang : forall tb fa manual f, recover tb fa manual = Ok f ->
+  merge_ready (static_view (f_cfg f)) = true ->
+  exists f', recover_full tb fa manual = Ok f' /\ f_addr f' = fa /\
+             forall w, lang (f_cfg f') w <-> lang (static_view (f_cfg f)) w.
+Proof. exact RecoverProofs.recover_full_lang. Qed.
+Print Assumptions recover_full_lang.
